@@ -33,6 +33,9 @@ FIXED = [
     (7, [(1, 5), (2, 4), (2, 5), (2, 6), (3, 4), (3, 6), (5, 6)]),
     (7, [(1, 3), (1, 4), (1, 6), (2, 4), (4, 7), (5, 7), (6, 7)]),
     (6, [(1, 5), (2, 3), (3, 5), (3, 6), (4, 5), (4, 6), (5, 6)]),
+    # degrees 1 and 8: a Python set of these degrees does not iterate in increasing order (documented order of the
+    # degree-class series: increasing degree)
+    (9, [(1, k) for k in range(2, 10)]),
 ]
 
 
@@ -260,7 +263,7 @@ def main(argv=None):
     scen_all, res_a = box["all"]
     chk.add_tlc("InitCond all labelled graphs on 2..%d nodes, rho in %s" % (fam["maxn"], fam["rhos"]), res_a)
     scen_fix, res_f = box["fix"]
-    chk.add_tlc("InitCond fixed graphs (4-7 nodes), <=1 infected, <=1 recovered", res_f)
+    chk.add_tlc("InitCond fixed graphs (4-9 nodes), <=1 infected, <=1 recovered", res_f)
     res_c = box["cf"]
     chk.add_tlc("CompartmentFlow exhaustive MaxPop=4 MaxRows=3", res_c)
     for nm, res in (("InitCond", res_a), ("InitCond(fixed)", res_f), ("CompartmentFlow", res_c)):
